@@ -1913,6 +1913,7 @@ DLLIMPORT char *cfg_tilde_expand(const char *filename)
 				return NULL;
 
 			strncpy(user, filename + 1, file - filename - 1);
+			user[file - filename - 1] = '\0';
 			passwd = getpwnam(user);
 			free(user);
 		}
